@@ -20,6 +20,7 @@ class Opts:
         self.classes = True
         self.fibers = True
         self.closures = True
+        self.multi_catch = True          # several catch clauses, nested try in a later clause
         self.max_depth = 4
         self.__dict__.update(kw)
 
@@ -289,16 +290,43 @@ class Gen:
             self.pop()
             self.try_depth_in_loop -= 1
             self.try_depth_in_fn -= 1
-            e = self.fresh("e")
-            self.emit("} catch %s: Error {" % e)
-            self.push()
-            self.declare(e, "err")
-            self.ind += 1
-            self.emit("print(%s.message);" % e)
-            for _ in range(self.r.randint(0, 2)):
-                self.stmt(d + 1)
-            self.ind -= 1
-            self.pop()
+            # one to three catch clauses; the earlier ones filter on classes that may or may not match
+            # (`raise Error(..)` falls through to the last clause, `x + nil` is a TypeError)
+            nclause = self.r.choice([1, 1, 1, 2, 2, 3]) if self.o.multi_catch else 1
+            firsts = self.r.sample(["TypeError", "ValueError", "IndexError", "KeyError"], nclause - 1)
+            head = "}"
+            for ci, cls in enumerate(firsts + ["Error"]):
+                e = self.fresh("e")
+                self.emit("%s catch %s: %s {" % (head, e, cls))
+                head = "}"
+                self.push()
+                self.declare(e, "err")
+                self.ind += 1
+                self.emit("print(%s.message);" % e)
+                for _ in range(self.r.randint(0, 2)):
+                    self.stmt(d + 1)
+                if ci > 0 and self.r.random() < 0.6 and self.can_try():
+                    # a nested try in a later clause whose handler fires (from a called function when one exists)
+                    e2 = self.fresh("e")
+                    fs = self.funs
+                    self.emit("try {")
+                    self.ind += 1
+                    if fs and self.r.random() < 0.5:
+                        name, ar = self.r.choice(fs)
+                        self.emit("print(%s(%s));" % (name, ", ".join(self.num(2) for _ in range(ar))))
+                    self.emit('raise Error("n%d");' % self.r.randint(0, 9))
+                    self.ind -= 1
+                    self.emit("} catch %s: Error {" % e2)
+                    self.ind += 1
+                    self.emit("print(%s.message);" % e2)
+                    self.ind -= 1
+                    self.emit("}")
+                    v = self.fresh()
+                    self.emit("let %s = %s;" % (v, self.num()))
+                    self.declare(v, "num")
+                    self.emit("print(%s);" % v)
+                self.ind -= 1
+                self.pop()
             self.emit("}")
         elif r < 0.81 and d <= 2:
             self.fundecl(d)
